@@ -539,7 +539,7 @@ func (vc *VC) checkPosts(st *State, rets []*Value, pos token.Pos, entryNames map
 	if c == nil {
 		return
 	}
-	if vc.oblCount[vc.fname+"#vacuity.exit"] < 3 {
+	if vc.oblCount[vc.fname+"#vacuity.exit"] < 8 {
 		vc.vacuity(st, "exit", pos)
 	}
 	names := map[string]*Value{}
